@@ -239,14 +239,17 @@ inductive Resp where
   | done
   | panic
   | badOp
-  deriving Repr, Inhabited
+  deriving DecidableEq, Repr, Inhabited
+
+/-- drop `c`, then every view of `rest` (each one is the parent of the one before it) -/
+def unwindFrom (st : Store) (c : View) : List View → Store
+  | [] => st.release c
+  | p :: rest => unwindFrom st (View.writeBack p c) rest
 
 /-- drops of all live views, innermost first (normal return of the closures or unwinding) -/
 def unwindStack (st : Store) : List View → Store
   | [] => st
-  | [v] => st.release v
-  | c :: p :: rest => unwindStack st (View.writeBack p c :: rest)
-termination_by vs => vs.length
+  | c :: rest => unwindFrom st c rest
 
 namespace Sess
 
